@@ -803,6 +803,14 @@ def obj_do(regs, op):
                 raise _OOD(f)
             a.fts = b
             r = None
+        elif f == 'basketsetfts':
+            if not (isinstance(a, BioBasket) and isinstance(b, FeatureList)):
+                raise _OOD(f)
+            if not all(isinstance(s_.meta.get('id'), str) for s_ in a) or \
+                    not all(ft.meta.get('seqid') is None or isinstance(ft.meta.get('seqid'), str) for ft in b):
+                raise _OOD(f)
+            a.fts = b
+            r = None
         elif f == 'setitem':
             if not (isinstance(a, BioBasket) and isinstance(b, BioSeq)):
                 raise _OOD(f)
@@ -926,7 +934,7 @@ def r_oobj(rng):
     if r < 0.75:
         return {'k': 'basket', 'seqs': [r_oseq(rng, 's%d' % i) for i in range(rng.choice([0, 1, 2, 2, 3, 4]))], 'meta': r_ometa(rng, 2)}
     if r < 0.9:
-        return {'k': 'fts', 'fts': [r_ofeat(rng, 's1') for _ in range(rng.choice([0, 1, 2, 3]))]}
+        return {'k': 'fts', 'fts': [r_ofeat(rng, rng.choice(['s0', 's1', 's1', 's2', 'q'])) for _ in range(rng.choice([0, 1, 2, 3, 4]))]}
     return {'k': 'meta', 'meta': r_ometa(rng, 3)}
 
 
@@ -950,7 +958,7 @@ def o_targets(o, limit=80):
 OBJ_PURE = [['copy'], ['copy'], ['slice'], ['slice'], ['addlit'], ['filterlen'], ['basketfts'], ['get'], ['get']]
 OBJ_INPL = ['reverse', 'lower', 'upper', 'complement', 'rc', 'iaddlit', 'sortlen', 'filterlen']
 OBJ_MUT = ['setlit', 'setlit', 'delkey', 'setid', 'appendseq', 'appendfeat', 'appendlit', 'delidx', 'clear']
-OBJ_BIN = ['is', 'is', 'extend', 'setfts', 'setref', 'setitem']
+OBJ_BIN = ['is', 'is', 'extend', 'setfts', 'setref', 'setitem', 'basketsetfts']
 OBJ_WANT = {'basketfts': ('Basket',), 'slice': ('Seq', 'Basket', 'Fts'), 'addlit': ('Seq',), 'filterlen': ('Basket',), 'reverse': ('Seq', 'Basket'),
             'lower': ('Seq', 'Basket'), 'upper': ('Seq', 'Basket'), 'complement': ('Seq', 'Basket'), 'rc': ('Seq', 'Basket'), 'iaddlit': ('Seq',), 'sortlen': ('Basket',),
             'setlit': ('Meta', 'Attr', 'dict'), 'delkey': ('Meta', 'Attr', 'dict'), 'setid': ('Seq',), 'appendseq': ('Basket',),
@@ -1036,7 +1044,7 @@ def gen_obj_case(rng, nops):
                 else:
                     f = rng.choice(OBJ_BIN)
                     wa, wb = {'is': (None, None), 'extend': (('Basket', 'Fts'), None), 'setfts': (('Seq',), ('Fts',)),
-                              'setref': (('Meta', 'Attr'), ('Attr', 'list', 'Fts', 'Meta')), 'setitem': (('Basket',), ('Seq',))}[f]
+                              'setref': (('Meta', 'Attr'), ('Attr', 'list', 'Fts', 'Meta')), 'setitem': (('Basket',), ('Seq',)), 'basketsetfts': (('Basket',), ('Fts',))}[f]
                     ga = _pick(rng, regs, wa, live)
                     if ga is None:
                         continue
@@ -1111,7 +1119,7 @@ def coq_oop(op):
         return '(OMut %s %s %s)' % (f, coq_nat(j), coq_path(q))
     if name == 'bin':
         _, d, fn, j, q, j2, q2 = op
-        f = {'is': 'BIs', 'extend': 'BExtend', 'setfts': 'BSetFts'}.get(fn[0]) or (
+        f = {'is': 'BIs', 'extend': 'BExtend', 'setfts': 'BSetFts', 'basketsetfts': 'BBasketSetFts'}.get(fn[0]) or (
             '(BSetItem %s)' % coq_z(fn[1]) if fn[0] == 'setitem' else '(BSetRef %s)' % coq_bs(fn[1]))
         return '(OBin %s %s %s %s %s %s)' % (coq_opt(d, coq_nat), f, coq_nat(j), coq_path(q), coq_nat(j2), coq_path(q2))
     raise RuntimeError(name)
@@ -1286,7 +1294,7 @@ RULE = ('kind attr: histories of 1-12 mapping operations (item/attribute set, ge
         'histories of 1-12 public operations (227 operations on BioSeq, BioBasket, FeatureList, Feature, Location, Meta) on real objects '
         'and their copies with deep structural snapshots, id()-reachability and write-footprint checks, plus re-wrap checks of every '
         'constructor / non-in-place operation; kind obj: programs of 2-12 steps over 4 variables holding real BioSeq / BioBasket / '
-        'FeatureList / Meta objects (30 public operations at random reachable receivers, grown while running so that receivers exist; '
+        'FeatureList / Meta objects (31 public operations at random reachable receivers, grown while running so that receivers exist; '
         'empty baskets / sequences / feature lists included) compared with the object-identity model on every step result and on the '
         'canonical object-graph dump; non-trivial = history that reaches a nested object or mixes operation kinds (attr), or '
         'contains copy / re-wrap / reference assignment (heap)')
@@ -1317,8 +1325,8 @@ LEVEL_TEXT = ('Machine-checked Coq theorems (60, all closed under the global con
               'the value-level operation on the deep read (setitem of a literal, delitem, list append, at key paths). '
               '(d) Object-identity level (C18_Obj.v): BioSeq / BioBasket / FeatureList / Feature / LocationTuple / Location / Meta / Attr / list '
               'as a heap of objects with identities; copy() = deepcopy is a GRAPH copy (internal sharing and cycles preserved); slicing / + / '
-              're-wrapping share meta.fts and nested metadata by design; every modelled public operation (30: constructors, copy, slicing of '
-              'sequences / baskets / feature lists, +, filter, basket.fts, reverse, complement, rc, str.lower/upper, +=, sort(len), filter(inplace), basket[i] = seq, item set / del on '
+              're-wrapping share meta.fts and nested metadata by design; every modelled public operation (31: constructors, copy, slicing of '
+              'sequences / baskets / feature lists, +, filter, basket.fts (getter and setter), reverse, complement, rc, str.lower/upper, +=, sort(len), filter(inplace), basket[i] = seq, item set / del on '
               'metadata with conversion, id setter, append of sequences / features / literals, del [i], clear, container +=, fts setter, '
               'assignment of an existing object, is) is a PROGRAM for a capability-checked interpreter, and the theorems are proved once for '
               'the interpreter: obj_interp_separation (any program keeps the two-colour invariant and touches no cell of the other colour), '
@@ -1347,7 +1355,7 @@ LEVEL_TEXT = ('Machine-checked Coq theorems (60, all closed under the global con
               'through the public API, compared on every step result incl. "is" with every variable and on the whole object graph with '
               'identities numbered in first-visit order); the remaining BioSeq / Feature / Location operations are decided by randomized operation '
               'histories and deterministic matrices on real objects (testing, not proof).')
-LEVEL_NOTE = ('Proved for the models only; the models are tied to /repo by testing (0 disagreements over 36 000 cases in the thorough tier). '
+LEVEL_NOTE = ('Proved for the models only; the models are tied to /repo by testing (0 disagreements over 36 033 cases in the thorough tier, 659 s). '
               'All 24 statements of the 9 modelled Attr methods (meta.py) are executed in the quick tier; none is unreachable. '
               'Trusted: Coq kernel/vm_compute, copy.deepcopy and CPython reference semantics (heap model: deepcopy as read-and-rebuild, exact '
               'for tree-shaped objects, decided by tree_shaped; object model: deepcopy as graph copy over the reachable set computed by a '
